@@ -286,13 +286,19 @@ Proof. intros Hn. split.
     + unfold b_star2. rewrite E. rewrite (Cn_ext n Hn _ Y _ Y) by (intros; apply (cv_adj_zero 2)). apply Qle_refl.
     + apply (cv_variance n Hn _ p X Y). now apply b_star_2_normal. Qed.
 
-(* several pricings on one engine: each uses exactly its own paths, whatever np.empty hands back -- in particular the rows
-   of the previous pricing (the engine's state) *)
-Theorem price_seq_own_paths (np_empty : list (list Q) -> nat -> list (list Q)) :
-  (forall prev n, length (np_empty prev n) = n) ->
+(* several pricings on one engine.  The engine's statistics are state; the model has BOTH behaviours of initialisation:
+   keep = false (the code: a new MCStatistics, np.empty content arbitrary -- e.g. the previous rows) and keep = true (keep the
+   old buffers and only extend them).  For keep = false every pricing holds exactly its own paths, for every garbage
+   oracle and every previous state; keep = true does not (N = 2 paths, then M = 1). *)
+Theorem price_seq_own_paths (garb : list (list Q) -> nat -> list Q) :
   forall ps prev,
-    price_seq np_empty prev ps = map (fun p => map (std_row (p_payoff p) (p_path p) (p_df p) (p_notional p)) (seq 0 (p_n p))) ps.
-Proof. intros Hlen. induction ps as [|p r IH]; intros prev; [reflexivity|]. simpl.
-  unfold reprice at 1. rewrite (engine_rows _ _ _ _ _ _ (Hlen prev (p_n p))). f_equal. apply IH. Qed.
-Lemma recycling_empty_length prev n : length (recycling_empty prev n) = n.
-Proof. unfold recycling_empty. rewrite firstn_length, app_length, repeat_length. lia. Qed.
+    price_seq garb false prev ps = map (fun p => map (std_row (p_payoff p) (p_path p) (p_df p) (p_notional p)) (seq 0 (p_n p))) ps.
+Proof. induction ps as [|p r IH]; intros prev; [reflexivity|]. simpl.
+  unfold reprice at 1. unfold initialisation, np_empty.
+  rewrite (engine_rows _ _ _ _ _ _ (eq_trans (map_length _ _) (seq_length _ _))). f_equal. apply IH. Qed.
+
+Definition w_pr (n : nat) : pricing := mkPricing (fun x => [x]) (fun i => inject_Z (Z.of_nat (S i))) 1 1 n.
+Lemma keeping_the_buffers_is_wrong :
+  price_seq recycling_garb true [] [w_pr 2; w_pr 1] = [[[1]; [2]]; [[1]; [2]]]              (* second pricing: 1 own path + 1 stale row *)
+  /\ price_seq recycling_garb false [] [w_pr 2; w_pr 1] = [[[1]; [2]]; [[1]]].
+Proof. vm_compute. split; reflexivity. Qed.
